@@ -75,6 +75,27 @@ CLAIMED["C13"] = {
             "threads only; the machine abstracts a call to 'reads of memo cells + pure function'.",
     "design": "DESIGN.md §5 C13",
 }
+CLAIMED["C08"] = {
+    "text": "Coq: declarative capture semantics of the regex matcher with a soundness theorem, finditer/sub/split decomposition "
+            "theorems, and on top of them: smart_quotes is a pointwise rewrite (same length; each position equal or a straight quote "
+            "replaced by a matching curly quote), template tags are copied at the same positions, and the rewrite never raises. The "
+            "proofs use the translated QUOTE_PATTERN only through a shape certificate re-evaluated on every run. Model tied to the "
+            "code by correspondence (all strings <= 5/6 over the property's alphabet + random) and engine validation; the document-level "
+            "claim (protected spans, same line breaks) is evaluated on reformat_text on/off with re-parsed ASTs.",
+    "note": "The across-inlines tree rewrite (doc_transforms) is not yet inside the Coq model: code spans / links / HTML being context-only "
+            "is checked on the implementation by AST comparison, not proved. Regex engine agreement with CPython is tested, not proved.",
+    "design": "DESIGN.md §5 C08",
+}
+CLAIMED["C09"] = {
+    "text": "Coq: ellipses() is confined -- the text is cut into gaps and ELLIPSIS_PATTERN matches, gaps are copied, each match is "
+            "copied or has exactly its three dots replaced and the whitespace runs directly around them kept or reduced to one space -- "
+            "and never raises; proof via the regex capture semantics and a shape certificate of the translated pattern. "
+            "Correspondence on all strings <= 6/8 over the property's alphabet; idempotence of the string rewrite is tested "
+            "exhaustively, not proved; document-level on/off comparison on re-parsed ASTs.",
+    "note": "Known findings D-26 (inserted space creates an autolink) and D-27 (line-start rule makes document-level idempotence depend on "
+            "wrapping). D-15 (tags not protected) was repaired (fix: 70efe46).",
+    "design": "DESIGN.md §5 C09",
+}
 PENDING_REASON = "check not built yet in this revision (work in progress; see DESIGN.md §7 staging)"
 
 def main():
